@@ -246,6 +246,36 @@ class Program:
                 return mk_bin("Ne", args[0], args[1])
         return e
 
+    def field_of_call(self, c, adt, name):
+        """value of field `name` of the struct a crate-local constructor-like function returns (one return shape,
+        built in place), over the call's arguments; None if it cannot be told"""
+        ks = self.short.get(c[1])
+        if not ks or len(ks) != 1:
+            return None
+        if self.facts.fns[ks[0]].impl_adt != adt:
+            return None   # only a type's own constructors (`Progress::new(..)`), not accessors that build some other value
+        cache = self.__dict__.setdefault("_foc_cache", {})
+        key = (ks[0], adt)
+        if key not in cache:
+            cache[key] = None   # recursion guard
+            try:
+                from .templates import return_template
+                rt = return_template(self, self.facts.fns[ks[0]], adt.split("::")[-1])
+            except Exception:
+                rt = None
+            cache[key] = rt if rt and len(rt) == 1 else None
+        rt = cache[key]
+        if not rt:
+            return None
+        v = rt[0].get(name)
+        if v is None or not isinstance(v, tuple):
+            return None
+        from .an import walk
+        if any(x[0] in ("local", "phi", "opaque", "upvar") for x in walk(v)):
+            return None
+        from .pat import subst_params
+        return subst_params(v, list(c[2]))
+
     # ------------------------------------------------------------------ call graph
     def _build_callgraph(self):
         self.calls_out = {k: [] for k in self.facts.fns}   # (callee_short, Site)
